@@ -22,6 +22,7 @@ import (
 	"sync/atomic"
 	"testing"
 	"testing/synctest"
+	"time"
 
 	"github.com/ARM-software/golang-utils/utils/filesystem"
 	"github.com/ARM-software/golang-utils/utils/hashing"
@@ -85,13 +86,13 @@ var errInjected = errors.New("injected read failure")
 
 // scriptedReader delivers data in chunks and fails / cancels at a byte position.
 type scriptedReader struct {
-	data   []byte
-	pos    int
-	chunk  int
+	data        []byte
+	pos         int
+	chunk       int
 	eofWithData bool // the last bytes are returned together with io.EOF (allowed by the io.Reader contract; flate/zip readers do it)
-	failAt int // -1 never
-	cancel context.CancelFunc
-	cancAt int // -1 never
+	failAt      int  // -1 never
+	cancel      context.CancelFunc
+	cancAt      int // -1 never
 }
 
 func (r *scriptedReader) Read(p []byte) (int, error) {
@@ -366,6 +367,86 @@ func TestC20(t *testing.T) {
 		}
 		if zfs != nil {
 			ways = append(ways, way{"zip", zfs, func(l int) string { return fmt.Sprintf("f%d", l) }})
+		}
+		// history on the file side: the same hasher object asked about a file of the same name, size and modification
+		// time but other bytes — a second archive mounted as a filesystem, and a file rewritten in place on the OS and
+		// memory backends
+		dirB := dir + "-b"
+		zipB := dir + "-archive-b.zip"
+		defer os.RemoveAll(dirB)
+		defer os.Remove(zipB)
+		stamp := time.Date(2021, 3, 4, 5, 6, 8, 0, time.UTC)
+		var zfsB filesystem.ICloseableFS
+		if err := os.MkdirAll(dirB, 0o755); err == nil {
+			for _, l := range lens {
+				pa, pb := filepath.Join(dir, fmt.Sprintf("f%d", l)), filepath.Join(dirB, fmt.Sprintf("f%d", l))
+				_ = os.WriteFile(pb, content(l, 77), 0o644)
+				_ = os.Chtimes(pa, stamp, stamp)
+				_ = os.Chtimes(pb, stamp, stamp)
+			}
+			zipA2 := dir + "-archive-a2.zip"
+			defer os.Remove(zipA2)
+			var zfsA2 filesystem.ICloseableFS
+			if err := osfs.Zip(dir, zipA2); err == nil {
+				if z, zf, err := filesystem.NewZipFileSystemFromStandardFileSystem(zipA2, filesystem.NoLimits()); err == nil {
+					zfsA2 = z
+					defer func() { _ = z.Close(); _ = zf.Close() }()
+				}
+			}
+			if err := osfs.Zip(dirB, zipB); err == nil {
+				if z, zf, err := filesystem.NewZipFileSystemFromStandardFileSystem(zipB, filesystem.NoLimits()); err == nil {
+					zfsB = z
+					defer func() { _ = z.Close(); _ = zf.Close() }()
+				}
+			}
+			if zfsA2 == nil || zfsB == nil {
+				rep.EngineError("second archive of the file-history part could not be mounted")
+			} else {
+				for _, algo := range algos {
+					for _, l := range lens {
+						fh, err := filesystem.NewFileHash(algo)
+						if err != nil {
+							continue
+						}
+						p := fmt.Sprintf("f%d", l)
+						_, _ = fh.CalculateFile(zfsA2, p)
+						got, err := fh.CalculateFile(zfsB, p)
+						fileCases++
+						transitions.Add(2)
+						if want := reference(algo, content(l, 77)); err != nil || got != want {
+							rep.Violation(fmt.Sprintf("wrong-file-digest:backend=zip:algo=%s:prev=same-name-size-mtime-in-another-archive", algo), map[string]any{"path": p, "len": l, "got": got, "want": want, "err": fmt.Sprint(err)})
+						}
+					}
+				}
+			}
+			// rewritten in place
+			for bname, fs := range backends {
+				root := dir
+				if bname == "mem" {
+					root = "/c20"
+				}
+				for _, algo := range algos {
+					for _, l := range lens[1:] {
+						p := filepath.Join(root, fmt.Sprintf("rw%d", l))
+						fh, err := filesystem.NewFileHash(algo)
+						if err != nil {
+							continue
+						}
+						_ = fs.WriteFile(p, content(l, 5), 0o644)
+						_ = fs.Chtimes(p, stamp, stamp)
+						_, _ = fh.CalculateFile(fs, p)
+						_ = fs.WriteFile(p, content(l, 6), 0o644)
+						_ = fs.Chtimes(p, stamp, stamp)
+						got, err := fh.CalculateFile(fs, p)
+						fileCases++
+						transitions.Add(2)
+						if want := reference(algo, content(l, 6)); err != nil || got != want {
+							rep.Violation(fmt.Sprintf("wrong-file-digest:backend=%s:algo=%s:prev=same-file-rewritten-in-place", bname, algo), map[string]any{"path": p, "len": l, "got": got, "want": want, "err": fmt.Sprint(err)})
+						}
+						_ = fs.Rm(p)
+					}
+				}
+			}
 		}
 		for _, wy := range ways {
 			for _, algo := range algos {
